@@ -25,7 +25,7 @@ def hexDigit (n : Nat) : Char := if n < 10 then Char.ofNat (48 + n) else Char.of
 
 def bytesToHex (b : Bytes) : String :=
   if b.isEmpty then "-" else
-  String.mk (b.foldr (fun x acc => hexDigit (x.toNat / 16) :: hexDigit (x.toNat % 16) :: acc) [])
+  String.ofList (b.foldr (fun x acc => hexDigit (x.toNat / 16) :: hexDigit (x.toNat % 16) :: acc) [])
 
 /-- polynomial hash shared with the Python side (`harness/lineproto.py::phash`) -/
 def phash (b : Bytes) : Nat :=
